@@ -213,6 +213,8 @@ class World:
             st = self.storage
             st.writer_queue.on_put = self._on_writer_put
             self.env = st.db
+        # the limiter's clock follows the virtual loop clock (throttle sleeps advance it)
+        ns.rate_limiter.perf_counter = self.loop.time
         self.rate_limiter = ns.rate_limiter.get_rate_limiter(
             {"rate_limits": rate_limits} if rate_limits else {})
 
